@@ -18,7 +18,21 @@ class UserErr(Exception):
     pass
 
 
-def conc_val(v, H):
+def conc_val(v, H, shared=None):
+    if v == "dep":
+        return shared
+    if v == "depeq":
+        return H.HTMLDependency("shared", "1.0")
+    if v == "false":
+        return False
+    if v == "zerof":
+        return 0.0
+    if v == "emptyhtml":
+        return H.HTML("")
+    if v == "emptydict":
+        return {}
+    if v == "emptyset":
+        return set()
     if v == "str":
         return "text"
     if v == "num":
@@ -49,6 +63,7 @@ def conc_val(v, H):
 
 def run_program(tagnames, events, H):
     tags = {t: H.Tag("div", id=t) for t in tagnames}
+    shared = H.HTMLDependency("shared", "1.0")
     base_log = []
 
     def label(x):
@@ -74,6 +89,8 @@ def run_program(tagnames, events, H):
                     items.append("s:" + c)
                 elif isinstance(c, H.Tag):
                     items.append("t:" + str(c.attrs.get("id")))
+                elif isinstance(c, H.HTMLDependency):
+                    items.append("d:" + c.name)
                 elif isinstance(c, gamma.Tfy):
                     items.append("f:obj")
                 else:
@@ -109,7 +126,7 @@ def run_program(tagnames, events, H):
                 pos = block(pos)
             elif act == "Display":
                 try:
-                    sys.displayhook(conc_val(e["v"], H))
+                    sys.displayhook(conc_val(e["v"], H, shared))
                 except BaseException as ex:
                     observe(pos, exc_name(ex))
                     ex._pos = pos + 1
@@ -181,7 +198,9 @@ def well_formed_random(rnd, tagnames, maxevents, maxdepth):
     used = set()
     exc = False
     n = 0
-    vals = ["str", "num", "zero", "empty", "none", "dots", "repr", "tag", "tfy", "list", "bad", "badlist"]
+    vals = ["str", "num", "zero", "empty", "none", "dots", "repr", "tag", "tfy", "list", "bad", "badlist",
+            "dep", "dep", "depeq", "false", "zerof", "emptyhtml", "emptydict", "emptyset"]
+    BAD = ("bad", "badlist", "emptydict", "emptyset")
     while n < maxevents or stack:
         if exc or n >= maxevents:
             if not stack:
@@ -215,7 +234,7 @@ def well_formed_random(rnd, tagnames, maxevents, maxdepth):
             v = rnd.choice(vals)
             events.append({"act": "Display", "t": "", "g": False, "v": v})
             n += 1
-            if v in ("bad", "badlist"):
+            if v in BAD:
                 exc = True
         elif r < 0.87 and stack:
             events.append({"act": "Raise", "t": "", "g": False, "v": ""})
